@@ -33,7 +33,8 @@ def tr(e):
     m = re.fullmatch(r"Some\((.*)\)", e)
     if m:
         inner = m.group(1).strip()
-        if re.fullmatch(r"lhs \^ rhs", inner) or re.fullmatch(r"\(.*\) as i64", inner):
+        # (an unchecked operator inside Some(..) is translated as what it is: it can panic)
+        if re.fullmatch(r"(lhs|rhs) (\+|-|\*|/|%|<<|>>|\^) (lhs|rhs)", inner) or re.fullmatch(r"\(.*\) as i64", inner):
             return tr(inner)
         raise ShapeError("apply_i64: cannot translate Some(%r)" % inner)
     m = re.fullmatch(r"\((.*)\) as i64", e)
